@@ -8,9 +8,9 @@
 (*             size (of a variable, of a literal, of a mutable variable)               *)
 (*     element insert / remove with every element e of the universe (value, applied    *)
 (*             twice, size, undone by the opposite function, membership of e in the    *)
-(*             result, mutable operands), not-element-of (symbol, word); the element  *)
-(*             given as a variable next to a literal set (insert, remove, not-element- *)
-(*             of, element-of)                                                         *)
+(*             result, mutable operands), not-element-of (symbol, word); elem-var: the *)
+(*             element is a variable next to a LITERAL set (insert, remove, not-       *)
+(*             element-of, element-of; keyed G03/<fn>/any/elem-var)                    *)
 (*             cross-kind: the element is a value of ANOTHER kind                      *)
 (*     binary  with every written sequence b: cartesian-product (value, size,          *)
 (*             membership of every pair of the universe, (A x B) x A, mutable),        *)
